@@ -11,7 +11,8 @@ EXTENDS Integers, Sequences
 
 Digit(c) == c >= 48 /\ c <= 57
 Latin(c) == (c >= 97 /\ c <= 122) \/ (c >= 65 /\ c <= 90)
-Upper(c) == IF c >= 97 /\ c <= 122 THEN c - 32 ELSE c
+\* the host's simple upper-case mapping, as far as it can produce a keyword letter: ASCII letters, long s (U+017F), dotless i (U+0131)
+Upper(c) == IF c >= 97 /\ c <= 122 THEN c - 32 ELSE IF c = 383 THEN 83 ELSE IF c = 305 THEN 73 ELSE c
 WsChar(c) == c >= 0 /\ c <= 32
 \* characters that may START / CONTINUE an identifier
 WordStart(kind, c) == IF kind = "generic" THEN Latin(c) \/ (c >= 192 /\ c <= 65534)
@@ -53,9 +54,9 @@ IsComment(kind, s) ==
   ELSE /\ Len(s) >= 4 /\ s[1] = 47 /\ s[2] = 42 /\ s[Len(s) - 1] = 42 /\ s[Len(s)] = 47
        /\ \A i \in 3 .. Len(s) - 2 : ~(s[i] = 42 /\ s[i + 1] = 47)      \* the first "*/" is the last one
 SymbolChar(kind, c) ==    \* characters handed to the symbol state
-  /\ c > 32 /\ c <= 255 /\ ~Latin(c) /\ ~Digit(c) /\ c \notin {34, 39}
+  /\ c > 32 /\ c <= (IF kind = "generic" THEN 255 ELSE 65534) /\ ~Latin(c) /\ ~Digit(c) /\ c \notin {34, 39}
   /\ (kind = "generic" => c \notin {35, 45, 46} /\ ~(c >= 192))
-  /\ (kind = "expression" => c \notin {95, 46, 47} /\ ~(c >= 192))
+  /\ (kind = "expression" => c \notin {95, 46, 47} /\ ~(c >= 192 /\ c <= 255))    \* a non-Latin-1 character that starts a token is a symbol
 
 WellFormed(kind, cls, s) ==
   CASE cls = "word"    -> Len(s) >= 1 /\ WordStart(kind, s[1]) /\ (\A i \in 2 .. Len(s) : WordPart(kind, s[i]))
